@@ -514,7 +514,8 @@ class Driver:
         left = [s for s in leaving if any(o['k'] == 'aclose' for o in rec_ops[s])]
         if closing or left:
             t0 = time.time()
-            while time.time() - t0 < (5.0 if left else 1.0) and self.daemon.nfds() > nfd_before - len(closing) - len(left) + \
+            busy = any(o['k'] not in ('aclose', 'connect') for s in left for o in rec_ops[s])
+            while time.time() - t0 < (5.0 if busy else 1.0 if closing else 0.3) and self.daemon.nfds() > nfd_before - len(closing) - len(left) + \
                     sum(1 for s in rec_ops for o in rec_ops[s] if o['k'] == 'connect'):
                 time.sleep(0.002)
         if self.noexec_wait:
